@@ -313,6 +313,14 @@ func hopMenu(w *world.World, o menuOpts, tok []byte, nonces []int64, withUpdates
 				acts = append(acts, uni.NFTTransfer(from, to, tok, n, 1))
 				acts = append(acts, uni.Multi(from, to, []uni.Ent{{Tok: tok, Nonce: n, Q: 1}}))
 			}
+			// to the non-payable contract on the other shard: the delivery is refused and a refund
+			// comes back (possibly after the sender's own copies were updated)
+			if string(from) == string(uni.A0) || string(from) == string(uni.B0) {
+				acts = append(acts, uni.NFTTransfer(from, uni.S1c, tok, n, 1))
+				if withUpdates {
+					acts = append(acts, uni.Multi(from, uni.S1c, []uni.Ent{{Tok: tok, Nonce: n, Q: 1}}))
+				}
+			}
 			if withUpdates {
 				acts = append(acts, uni.Call(from, from, vmcommon.BuiltInFunctionESDTNFTAddURI, tok, uni.Big(n), []byte("x"), []byte{}))
 				acts = append(acts, uni.Call(from, from, vmcommon.BuiltInFunctionESDTNFTUpdateAttributes, tok, uni.Big(n), []byte("zz")))
@@ -383,7 +391,12 @@ func c08Profiles(tier Tier) []*explore.Profile {
 			b.Must(uni.SetRole(uni.E2, uni.S, uni.NFTRoles...))
 			m := metaTuple{name: []byte("n"), roy: uni.Big(5), hash: []byte("OTHER"), attr: []byte("a"), uris: [][]byte{[]byte("u")}, q: 3}
 			b.Must(createWith(uni.E2, uni.S, m))
-			return []explore.SeedState{{Name: "two-creators", W: b.W}}
+			// the same with an empty hash on one side (an empty hash is a legal hash)
+			b2 := &uni.Builder{Env: env, W: uni.Seed(env, "sft")}
+			b2.Must(uni.SetRole(uni.E2, uni.S, uni.NFTRoles...))
+			m2 := metaTuple{name: []byte("n"), roy: uni.Big(5), hash: []byte{}, attr: []byte("a"), uris: [][]byte{[]byte("u")}, q: 3}
+			b2.Must(createWith(uni.E2, uni.S, m2))
+			return []explore.SeedState{{Name: "two-creators", W: b.W}, {Name: "two-creators-empty-hash", W: b2.W}}
 		},
 		Menu: func(w *world.World) []world.Action { return hopMenu(w, o, uni.S, []int64{1}, false) },
 	}
